@@ -352,11 +352,7 @@ func c16Exec(ops []string) []string {
 		case f[0] == "intent" && len(f) == 2:
 			before, known := n.member(name)
 			n.ltime++
-			buf, err := serf.VerifEncodeLeave(n.ltime, name, false)
-			if err != nil {
-				outs = append(outs, "bad-op")
-				continue
-			}
+			buf := serf.VerifEncodeLeave(n.ltime, name, false)
 			n.conf.MemberlistConfig.Delegate.NotifyMsg(buf)
 			after, _ := n.member(name)
 			if known && before.Status == serf.StatusFailed && after.Status == serf.StatusLeft {
